@@ -11,6 +11,7 @@ GDECL = "int g1 = 901; int g2; int ga; int gb; int gc; clock gx; chan c; broadca
 class Loc:
     def __init__(self, lid, name=None, inv=None, rate=None, kind=""):
         self.lid, self.name, self.inv, self.rate, self.kind = lid, name, inv, rate, kind
+        self.invstyle = 0     # 0: one conjunct   1: two conjuncts, the first ends in the literal 1   2: three conjuncts
 
     def sym(self):
         return self.name if self.name is not None else "_" + self.lid
@@ -66,7 +67,15 @@ def t_guard(k):
     return "g1 == %d" % k, "(EQ (IDENTIFIER g1) (CONSTANT:INT %d))" % k
 
 
-def t_inv(k):
+def t_inv(k, style=0):
+    # the library stores an invariant as `1 && <text>`; texts with literal 1s and several conjuncts are the hazardous ones for
+    # anything that edits label text (e.g. a writer that strips the neutral conjunct)
+    le = lambda v, c: "(LE (IDENTIFIER %s) (CONSTANT:INT %d))" % (v, c)      # noqa: E731
+    if style == 1:
+        return "gx <= 1 && g2 <= %d" % k, "(AND (CONSTANT:INT 1) (AND %s %s))" % (le("gx", 1), le("g2", k))
+    if style == 2:
+        return ("g1 <= 1 && gx <= 11 && g2 <= %d" % k,
+                "(AND (CONSTANT:INT 1) (AND (AND %s %s) %s))" % (le("g1", 1), le("gx", 11), le("g2", k)))
     return "gx <= %d" % k, "(AND (CONSTANT:INT 1) (LE (IDENTIFIER gx) (CONSTANT:INT %d)))" % k
 
 
@@ -119,7 +128,7 @@ def node_sym(t, n):
 def render_xml(m, queries=None):
     tpls = []
     for t in m.tpls:
-        locs = [X.location(l.lid, l.name, inv=t_inv(l.inv)[0] if l.inv is not None else None,
+        locs = [X.location(l.lid, l.name, inv=t_inv(l.inv, l.invstyle)[0] if l.inv is not None else None,
                            rate=t_rate(l.rate)[0] if l.rate is not None else None,
                            urgent=l.kind == "U", committed=l.kind == "C") for l in t.locs]
         trs = []
@@ -162,11 +171,11 @@ def render_xta(m, chain=True):
             if l.inv is None and l.rate is None:
                 st.append(l.sym())
             elif l.rate is None:
-                st.append("%s {%s}" % (l.sym(), t_inv(l.inv)[0]))
+                st.append("%s {%s}" % (l.sym(), t_inv(l.inv, l.invstyle)[0]))
             elif l.inv is None:
                 st.append("%s {; %s}" % (l.sym(), t_rate(l.rate)[0]))
             else:
-                st.append("%s {%s ; %s}" % (l.sym(), t_inv(l.inv)[0], t_rate(l.rate)[0]))
+                st.append("%s {%s ; %s}" % (l.sym(), t_inv(l.inv, l.invstyle)[0], t_rate(l.rate)[0]))
         s += "state " + ", ".join(st) + ";\n"
         if t.bps:
             s += "branchpoint " + ", ".join("_" + b for b in t.bps) + ";\n"
@@ -217,7 +226,7 @@ def expected(m, xml=True):
               "params": [[n, PARAM_TYPE[k]] for k, n in t.params],
               "unbound": len(t.params),
               "locals": [["l1", "(CONSTANT:INT %d)" % t.locals]] if t.locals is not None else [],
-              "locations": [[i, l.sym(), l.kind, t_inv(l.inv)[1] if l.inv is not None else "()",
+              "locations": [[i, l.sym(), l.kind, t_inv(l.inv, l.invstyle)[1] if l.inv is not None else "()",
                              t_rate(l.rate)[1] if l.rate is not None else "()"] for i, l in enumerate(t.locs)],
               "branchpoints": [[j, "_" + b] for j, b in enumerate(t.bps)],
               "init": t.locs[t.init].sym() if t.locs else None,
@@ -353,6 +362,8 @@ def build(choose, common=False, bp_base=True):
                 rate = [[None, base + 301 + li], [base + 301 + li, None]][1 if li == 1 else 0][choose(2, "%s.L%d.rate" % (t.name, li))]
                 kind = (["", "U", "C"] if li != 2 else ["C", "", "U"])[choose(3, "%s.L%d.kind" % (t.name, li))]
                 l.inv, l.rate, l.kind = inv, rate, kind
+                if inv is not None:
+                    l.invstyle = choose(3, "%s.L%d.invstyle" % (t.name, li))
                 # an urgent/committed location may not carry a time invariant or a rate
                 if l.kind:
                     l.inv = None
